@@ -12,7 +12,7 @@ func init() {
 
 		// NewCLIPlugin: the stat of the executable path (tail of CLIManager.Get)
 		{Pkg: "os", Func: "Stat", Oracle: true},
-		{Pkg: "io/fs", Type: "FileInfo", Opaque: true, Views: map[string]string{"Mode().IsRegular()": "bool"}},
+		{Pkg: "io/fs", Type: "FileInfo", Opaque: true, Views: map[string]string{"Mode().IsRegular()": "bool", "Mode()": "Z"}},
 		{Pkg: ".../plugin", Func: "NewCLIPlugin"},
 
 		// the metadata a plugin process printed: validate (GetMetadata itself calls
@@ -22,27 +22,35 @@ func init() {
 
 		// the verifier: the signature-supplied name (and minimum version)
 		{Pkg: core, Type: "SignerInfo", Opaque: true},
-		// comma-ok type assertion attr.Value.(string) (verifier/helpers.go:99) is outside the subset: an oracle
-		{Pkg: ".../verifier", Func: "extractCriticalStringExtendedAttribute", Oracle: true},
+		{Pkg: core, Func: "(*SignerInfo).ExtendedAttribute", Oracle: true},
+		{Pkg: ".../verifier", Func: "extractCriticalStringExtendedAttribute"},
 		{Pkg: ".../verifier", Func: "getVerificationPlugin"},
 		{Pkg: ".../internal/semver", Func: "IsValid", Oracle: true},
 		{Pkg: ".../verifier", Func: "getVerificationPluginMinVersion"},
 
-		// refused; kept because the reasons document what C16 still ties to the code
-		// by the correspondence harness only:
-		// variadic method SysPath(items ...string) / filepath.Join(pathItems...)
+		// the manager: path derivation and the name operations
+		{Pkg: "path/filepath", Func: "Join", Oracle: true},
 		{Pkg: ".../dir", Func: "sysFS.SysPath"},
-		// struct CLIManager has the single field pluginFS dir.SysFS (a two-method
-		// interface): no translatable field; then the variadic interface call
-		// m.pluginFS.SysPath(..) and path.Join(name, binName(name))
-		{Pkg: ".../plugin", Func: "(*CLIManager).Get"},
+		// the manager holds its file system as the interface dir.SysFS: the method is an oracle,
+		// constrained in the theorems to answer like the translated sysFS.SysPath
+		{Pkg: ".../dir", Func: "SysFS.SysPath", Oracle: true},
+		{Pkg: "os", Func: "RemoveAll", Oracle: true},
 		{Pkg: ".../plugin", Func: "(*CLIManager).Uninstall"},
-		// the filtering decisions are inside closures passed to fs.WalkDir / filepath.WalkDir
+		{Pkg: "io/fs", Func: "FileMode.IsRegular"},
+		{Pkg: "io/fs", Func: "FileMode.Perm"},
+		{Pkg: ".../plugin", Func: "isExecutableFile"},
+
+		// refused; kept because the reasons document what is tied to the code by the
+		// correspondence harness only:
+		// result type plugin.Plugin (interface). With a row {Type: "Plugin", Opaque, Nilable} the
+		// translator emits `return NewCLIPlugin(..)` without the *CLIPlugin -> Plugin conversion
+		// (ill-typed C16_Gen.v, reported to the translator's owner): C16_gen_Get_composition
+		// states the composition of the translated pieces instead
+		{Pkg: "path", Func: "Join", Oracle: true},
+		{Pkg: ".../plugin", Func: "(*CLIManager).Get"},
+		// fs.WalkDir / filepath.WalkDir with the SkipDir protocol (not the Callback contract)
 		{Pkg: ".../plugin", Func: "(*CLIManager).List"},
 		{Pkg: ".../plugin", Func: "parsePluginFromDir"},
-		// fi.Mode() bound to a local, then mode.Perm()&0100 (bit operation)
-		{Pkg: ".../plugin", Func: "isExecutableFile"},
-		// any is not in the subset: kept as the standing example of a refused target
 		{Pkg: ".../internal/slices", Func: "ContainsAny"},
 	})
 }
